@@ -216,6 +216,11 @@ def hand():
         {'root': 'R', 'defs': [('R', ('su', ['R']))]},
         # a cycle behind a sequence that can only be empty
         {'root': 'A', 'defs': [('A', ('t', ['S', 'u8'])), ('S', ('s', 2, 0, 0, 'A')), u8]},
+        # F25: a cycle through untagged definitions - every value of X is empty (A, B(A), B(B(A)), ..): a dynamically
+        # sized sequence of X, and X itself as the root; likewise a fixed-length untagged sequence of itself
+        {'root': 'S', 'defs': [('S', ('s', 4, 0, 10, 'X')), ('X', ('e', 0, [(0, 'A', 'U'), (1, 'B', 'X')])), ('U', ('t', []))]},
+        {'root': 'X', 'defs': [('X', ('e', 0, [(0, 'A', 'U'), (1, 'B', 'X')])), ('U', ('t', []))]},
+        {'root': 'S', 'defs': [('S', ('s', 1, 0, 7, 'Y')), ('Y', ('s', 0, 0, 3, 'Y'))]},
         # huge zero-sized nested arrays
         {'root': 'A', 'defs': [('A', ('s', 0, U64M, U64M, 'B')), ('B', ('s', 0, U64M, U64M, '()')), unit]},
     ]
